@@ -65,8 +65,13 @@ BitsOfBool(v) == <<Bv(v.bv)>>
 
 \* ---- closed-form meaning --------------------------------------------------------------
 \* vs: sequence of argument values (as typed by the signature).  Result: value of the result type.
-JetMeaning(name, vs) ==
-  LET o == JetOpTable[name]
+RECURSIVE FlatVals(_)
+\* the scalar arguments in written order (a few jets group their parameters in tuples)
+FlatVals(vs) == IF vs = <<>> THEN <<>>
+                ELSE (IF Head(vs).k = "vtup" THEN FlatVals(Head(vs).es) ELSE <<Head(vs)>>) \o FlatVals(Tail(vs))
+JetMeaning(name, vs0) ==
+  LET vs == FlatVals(vs0)
+      o == JetOpTable[name]
       n == o.n
       op == o.op
       A == vs[1].bits B == vs[2].bits C == vs[3].bits
@@ -112,12 +117,33 @@ JetMeaning(name, vs) ==
        [] op = "modulo" -> IF IsZeroBits(B) THEN VU(A) ELSE VU(DivMod(A, B).r)
        [] op = "divides" -> \* a divides b
                             IF IsZeroBits(A) THEN VBool(IsZeroBits(B)) ELSE VBool(IsZeroBits(DivMod(B, A).r))
+       \* ---- sub-words, padding, extension (source width n, target width m) ----
+       [] op = "leftmost" -> VU(SubSeq(A, 1, o.m))
+       [] op = "rightmost" -> VU(SubSeq(A, n - o.m + 1, n))
+       [] op = "left_pad_low" -> VU(ZeroBits(o.m - n) \o A)
+       [] op = "left_pad_high" -> VU(OneBits(o.m - n) \o A)
+       [] op = "left_extend" -> VU(Rep(A[1], o.m - n) \o A)
+       [] op = "right_pad_low" -> VU(A \o ZeroBits(o.m - n))
+       [] op = "right_pad_high" -> VU(A \o OneBits(o.m - n))
+       [] op = "right_extend" -> VU(A \o Rep(A[n], o.m - n))
+       \* ---- shifts: (a : n bits, b : m bits) concatenated, split the other way ----
+       [] op = "full_left_shift" -> LET ab == A \o B IN VTup(<<VU(SubSeq(ab, 1, o.m)), VU(SubSeq(ab, o.m + 1, n + o.m))>>)
+       [] op = "full_right_shift" -> LET ab == A \o B IN VTup(<<VU(SubSeq(ab, 1, n)), VU(SubSeq(ab, n + 1, n + o.m))>>)
+       [] op = "left_shift_with" -> LET k == Min2(NatOfBits(B), n) IN VU(SubSeq(C, k + 1, n) \o Rep(A[1], k))
+       [] op = "right_shift_with" -> LET k == Min2(NatOfBits(B), n) IN VU(Rep(A[1], k) \o SubSeq(C, 1, n - k))
+       [] op = "left_shift" -> LET k == Min2(NatOfBits(A), n) IN VU(SubSeq(B, k + 1, n) \o ZeroBits(k))
+       [] op = "right_shift" -> LET k == Min2(NatOfBits(A), n) IN VU(ZeroBits(k) \o SubSeq(B, 1, n - k))
+       [] op = "left_rotate" -> LET k == NatOfBits(A) % n IN VU(SubSeq(B, k + 1, n) \o SubSeq(B, 1, k))
+       [] op = "right_rotate" -> LET k == NatOfBits(A) % n IN VU(SubSeq(B, n - k + 1, n) \o SubSeq(B, 1, n - k))
 
 \* jets whose meaning the model knows (sub-word shifts/extensions are added by JetsExt for C13)
 CoreJetOps == {"low", "high", "one", "complement", "and", "or", "xor", "maj", "xor_xor", "ch", "some", "all", "eq",
                "is_zero", "is_one", "le", "lt", "min", "max", "median", "add", "full_add", "increment",
                "full_increment", "subtract", "full_subtract", "negate", "decrement", "full_decrement", "multiply",
-               "full_multiply", "div_mod", "divide", "modulo", "divides"}
+               "full_multiply", "div_mod", "divide", "modulo", "divides",
+               "leftmost", "rightmost", "left_pad_low", "left_pad_high", "left_extend", "right_pad_low", "right_pad_high",
+               "right_extend", "full_left_shift", "full_right_shift", "left_shift_with", "right_shift_with", "left_shift",
+               "right_shift", "left_rotate", "right_rotate"}
 HasMeaning(name) == name \in ClosedFormJets /\ JetOpTable[name].op \in CoreJetOps
 
 \* ---- transaction environment (the part the lock-time jets read) ---------------------------
